@@ -471,7 +471,8 @@ _ADDED = {
     'C11': 'a_real_fill with values of any bit pattern, in particular repeating byte / 16-bit / 32-bit groups, compared bit for bit; the norms are asked again with the same arguments after an in-place change of the last component (the value follows the data, not the pointer)',
     'C12': 'one table object may be registered for both inputs (me == mec); a twin controller is stepped m times with one constant sample and the results discarded, against the same steps with every result used; in the exact class one integrator clamp in twelve is a small multiple of ki moved outwards by 2^-30, with small integer errors, so that sums land exactly on the integer next to the clamp',
     'C13': 'one table object may be registered for both inputs (me == mec)',
-    'C14': 'the lattice class includes bell moves of length zero that reverse their velocity (feasible whenever v0 + v1 < 0)',
+    'C15': 'the context objects start with arbitrary bytes and, in half of the cases, with an earlier plan of another request on the same object',
+    'C14': 'in half of the cases another request is planned on the same context object first (C and member twin alike); the lattice class includes bell moves of length zero that reverse their velocity (feasible whenever v0 + v1 < 0)',
     'C16': '(tf) primed samples whose results are discarded followed by a loop over one constant sample, against the reference recurrence',
     'C17': 'each CRC is computed three times by direct calls with identical arguments in straight-line code: before, after and after undoing an in-place edit of one message byte',
     'C18': 'a freshly constructed string object is counted with the out-parameter pre-set to a wrong value; after the cut the string object is appended to again (code points and raw bytes), so that an interrupted character lies in its interior, and counted with and without the out-parameter',
